@@ -142,7 +142,18 @@ func (r *evalRenderer) cond(c string, p []int) string {
 	return fmt.Sprintf("c(\"%s\")", pathStr(p))
 }
 
-var forInData = map[string]string{"arr": "a", "obj": "o", "str": "s"}
+var forInData = map[string]string{"arr": "a", "obj": "o", "str": "s", "ustr": "u", "nobj": "m"}
+
+// keys and values of the objects that for-in loops iterate over
+var forInObjKeys = map[string]map[string]string{
+	"o0": {}, "o1": {"k0": "v0"}, "o2": {"k0": "v0", "k1": "v1"},
+	// numeric-looking and other keys mixed: any "natural" ordering of such keys must still be one total, repeatable order
+	"m4": {"9": "v9", "10": "v10", "1a": "v1a", "nan": "vnan"},
+}
+
+// characters and byte offsets of the strings that for-in loops iterate over
+var forInChars = map[string][]string{"s0": {}, "s1": {"x"}, "s2": {"x", "y"}, "u0": {}, "u1": {"é"}, "u2": {"é", "y"}}
+var forInOffsets = map[string][]int{"s0": {}, "s1": {0}, "s2": {0, 1}, "u0": {}, "u1": {0}, "u2": {0, 2}}
 
 func (r *evalRenderer) stmt(s Node, p []int, depth int) string {
 	in := ind(depth)
@@ -210,7 +221,8 @@ func (r *evalRenderer) stmt(s Node, p []int, depth int) string {
 		iter = strings.Replace(iter, "$$", "dat", 1)
 		if r.literal && n >= 0 {
 			iter = map[string]string{"a0": "[]", "a1": `["e0"]`, "a2": `["e0", "e1"]`, "o0": "{}", "o1": `{k0: "v0"}`, "o2": `{k0: "v0", k1: "v1"}`,
-				"s0": `""`, "s1": `"x"`, "s2": `"xy"`}[fmt.Sprintf("%s%d", forInData[kind], n)]
+				"s0": `""`, "s1": `"x"`, "s2": `"xy"`, "u0": `""`, "u1": `"é"`, "u2": `"éy"`,
+				"m4": `{"9": "v9", "10": "v10", "1a": "v1a", nan: "vnan"}`}[fmt.Sprintf("%s%d", forInData[kind], n)]
 		}
 		v1, v2 := "x"+ps, "y"+ps
 		head := v1
@@ -246,6 +258,18 @@ func (r *evalRenderer) stmt(s Node, p []int, depth int) string {
 		}
 		return in + nstr(s, "n") + " = " + r.atom(e)
 	case "matchstmt":
+		if hdr := nstr(s, "hdr"); hdr != "" {
+			m := fmt.Sprintf("match (%s) { %s => {\n%s\n%s} }", r.atom(nnode(s, "subj")), nstr(s, "bind"),
+				r.stmt(nnode(s, "b"), append(append([]int{}, p...), 1), depth+1), in)
+			switch hdr {
+			case "whilecond":
+				return in + "while (" + m + ") {\n" + in + "}"
+			case "forinit":
+				return in + "for (" + m + "; false; 0) {\n" + in + "}"
+			case "forcond":
+				return in + "for (0; " + m + "; 0) {\n" + in + "}"
+			}
+		}
 		return in + fmt.Sprintf("match (%s) { %s => {\n%s\n%s} }", r.atom(nnode(s, "subj")), nstr(s, "bind"),
 			r.stmt(nnode(s, "b"), append(append([]int{}, p...), 1), depth+1), in)
 	}
@@ -326,7 +350,7 @@ func (r *evalRenderer) renderEvalProgram(prog Node, conds []bool) evalProgram {
 
 // the for-in data as a jqawk object literal (single-quoted strings are fine)
 func forInDocLiteral() string {
-	return `{a0: [], a1: ["e0"], a2: ["e0", "e1"], o0: {}, o1: {k0: "v0"}, o2: {k0: "v0", k1: "v1"}, s0: "", s1: "x", s2: "xy"}`
+	return `{a0: [], a1: ["e0"], a2: ["e0", "e1"], o0: {}, o1: {k0: "v0"}, o2: {k0: "v0", k1: "v1"}, s0: "", s1: "x", s2: "xy", u0: "", u1: "é", u2: "éy", m4: {"9": "v9", "10": "v10", "1a": "v1a", nan: "vnan"}}`
 }
 
 type expLine struct {
@@ -337,6 +361,7 @@ type expLine struct {
 	Idx    int
 	Two    bool
 	ObjLen int
+	Keys   map[string]string // object iteration: the object's keys and values
 }
 
 // expectedLines turns the model's observation entries into stdout lines.
@@ -385,14 +410,16 @@ func expectedLines(out []any, forins map[string]Node) []expLine {
 					t += fmt.Sprintf(" %d", idx)
 				}
 				lines = append(lines, expLine{Text: t})
-			case "str":
-				t := fmt.Sprintf("it %s %c", ps, "xy"[idx])
+			case "str", "ustr":
+				name := fmt.Sprintf("%s%d", forInData[nstr(f, "kind")], nint(f, "n"))
+				t := fmt.Sprintf("it %s %s", ps, forInChars[name][idx])
 				if two {
-					t += fmt.Sprintf(" %d", idx)
+					t += fmt.Sprintf(" %d", forInOffsets[name][idx])
 				}
 				lines = append(lines, expLine{Text: t})
-			case "obj":
-				lines = append(lines, expLine{Text: "it " + ps + " ", ObjIt: true, Path: ps, Idx: idx, Two: two, ObjLen: nint(f, "n")})
+			case "obj", "nobj":
+				name := fmt.Sprintf("%s%d", forInData[nstr(f, "kind")], nint(f, "n"))
+				lines = append(lines, expLine{Text: "it " + ps + " ", ObjIt: true, Path: ps, Idx: idx, Two: two, ObjLen: nint(f, "n"), Keys: forInObjKeys[name]})
 			}
 		}
 		for k := before; k < len(lines); k++ {
@@ -495,14 +522,15 @@ func compareEvalOutput(stdout []byte, exp []expLine) string {
 		if e.Two {
 			want = 2
 		}
-		if len(rest) != want || len(rest[0]) != 2 || rest[0][0] != 'k' {
+		if len(rest) != want {
 			return fmt.Sprintf("line %d: malformed object iteration line %q", i+1, got[i])
 		}
 		key := rest[0]
-		if kn, err := strconv.Atoi(key[1:]); err != nil || kn < 0 || kn >= e.ObjLen {
+		val, isKey := e.Keys[key]
+		if !isKey {
 			return fmt.Sprintf("line %d: key %q is not a key of the object", i+1, key)
 		}
-		if e.Two && rest[1] != "v"+key[1:] {
+		if e.Two && rest[1] != val {
 			return fmt.Sprintf("line %d: value %q does not belong to key %q", i+1, rest[1], key)
 		}
 		ord := order[e.Path]
